@@ -244,6 +244,8 @@ let handle_smtp (kind : string) (ins : string list) (outs : string list) : bool 
                      let p = f (String.sub body 0 i) and t = f (String.sub body (i + 1) (String.length body - i - 1)) in
                      let ((i, t), _) = run_bytes_tls c o p t in ((i, t), replies_of t)
                  | None ->
+                 (* '&': a lock-step hand-over (no pause): the bytes are simply consecutive *)
+                 let body = String.concat "" (String.split_on_char '&' body) in
                  let chunks = List.map f (String.split_on_char '~' body) in
                  match chunks, fin, wl with
                  | [w], FEof, None -> let ((i, t), _) = run_bytes c o w in ((i, t), replies_of t)
